@@ -96,6 +96,7 @@ def checkSched (c : Case) : VM Unit := do
   vstat "c10.networks" 1
   vstat "c10.tourhyps" (if tourHypsB nw then 1 else 0)
   vstat "c10.formhyps" (if formHypsB nw then 1 else 0)
+  vstat "c10.limithyps" (if formHypsB nw && ovfNodeB nw then 1 else 0)
   vstat "sched.changed" nChanged
   vstat "sched.op-kinds" kinds.length
   if let some p := pre then
